@@ -466,6 +466,14 @@ def canonical_order(ctx, pt, site):
                 ctx.undecided("C06.1", fn, "dump via %s: dictionary '%s' is filled in insertion order; a re-keying exists (`%s` in %s) but which dictionary it copies could not be identified" % (
                     how, label, norm(blind[0].stmt)[:70], (blind[0].src_fn or blind[0].fn).qualname), norm(call) + " :: " + label)
                 continue
+            stacked = [(u[0], C.in_worklist_loop(ctx, u[0].fn, u[0].node)) for u in unordered if u[0].fn is not None]
+            stacked = [(i_, w_) for i_, w_ in stacked if w_ is not None]
+            if stacked:
+                # an iterative walk: which listing the key comes from travels on the stack with the dictionary it goes into
+                ctx.undecided("C06.1", fn, "dump via %s: dictionary '%s' is filled (%s in %s) inside a loop that keeps its own stack of open directories (`%s`): "
+                              "whether the keys arrive in sorted order there is not read" % (how, label, norm(stacked[0][0].node)[:60], stacked[0][0].fn.qual, stacked[0][1]),
+                              norm(call) + " :: " + label)
+                continue
             detail = "dump via %s: dictionary '%s' is filled in insertion order (e.g. %s in %s) and is not re-keyed with dict(sorted(...items())) on every path to the dump after its last insertion" % (
                 how, label, norm(example.node)[:70], example.fn.qual)
             if reasons:
@@ -934,6 +942,30 @@ def _is_info_base(ctx, pt, base, fn):
 
 
 # ---------------------------------------------------------------------------------------------- C06.6
+def _digest_values(terms):
+    """walk_values, except that the digest of a hashlib object is a value of that object's kind whatever was fed to it: the
+    data (and the path of the file it was read from) are not digests that arrive here."""
+    from tfsa.flow import _subsets
+    seen = set()
+    stack = list(terms)
+    while stack:
+        t = stack.pop()
+        if not isinstance(t, tuple) or id(t) in seen:
+            continue
+        seen.add(id(t))
+        if t[0] == "meth" and t[1] in ("digest", "hexdigest") and len(t) > 2 and isinstance(t[2], frozenset):
+            kinds = [x for x in t[2] if isinstance(x, tuple) and x[0] == "ext" and isinstance(x[1], str) and x[1].startswith("hashlib.")]
+            if kinds:
+                for k in kinds:
+                    yield k
+                continue
+        yield t
+        if t[0] == "ext" and t[1] in ("builtins.open", "io.open"):
+            continue        # what is read from a file is not made of the pieces of its path
+        for part in (t[1:2] if t[0] == "inloop" else t[1:]):
+            stack.extend(_subsets(part))
+
+
 def hash_kinds(ctx, pt):
     init = ctx.prog.func("torrentfile.torrent:MetaFile.__init__")
     flow = Flow(ctx.prog, ctx.res, stop_funcs=[init])
@@ -954,7 +986,7 @@ def hash_kinds(ctx, pt):
             targets.append(("pieces root", ins.key))
         for name, expr in targets:
             t = flow.term(expr, ins.fn)
-            hs = {x[1] for x in walk_values(t) if x[0] == "ext" and x[1].startswith("hashlib.")}
+            hs = {x[1] for x in _digest_values(t) if x[0] == "ext" and x[1].startswith("hashlib.")}
             cut = any(x[0] == "unknown" and x[1] in ("depth", "wide") for x in walk_terms(t))
             exp = want[name][0]
             n += 1
@@ -984,7 +1016,7 @@ def hash_kinds(ctx, pt):
                 for k, v in zip(d.keys, d.values):
                     if const_str(k) == "pieces root":
                         t = flow.term(v, f)
-                        hs = {x[1] for x in walk_values(t) if x[0] == "ext" and x[1].startswith("hashlib.")}
+                        hs = {x[1] for x in _digest_values(t) if x[0] == "ext" and x[1].startswith("hashlib.")}
                         n += 1
                         if hs == {"hashlib.sha256"}:
                             ctx.holds("C06.6", f, "'pieces root' receives only hashlib.sha256 digests", v)
